@@ -459,3 +459,94 @@ def scan_dispatch(E, L):
             pass
     block(dict(self=self_, log_info=F2(), i=total, thermo_headers=[th0], thermo_footers=[tf0], performance_headers=[ph0], performance_footers=[], is_old_version=False))
     E.prove('dispatch.unterminated_timing_table_skipped', [c[0] for c in calls] == ['thermo'] and self_.simulations[0].performance is None)
+
+
+# ----------------------------------------------------------------------------
+# bounded: lammps.run with automatic restarts, driven with a stand-in executable (no LAMMPS in the sandbox): the returned Log lists every run ever performed, in the order
+# in which they were performed, however many numbered logs have accumulated
+
+RUNF = 'atomman/lammps/run.py'
+
+_FAKE_LAMMPS = r'''
+import sys
+from pathlib import Path
+
+
+def rows_for(call, block):
+    start = 1000 * call + 100 * block
+    return [(start + 25 * n, 300.0 + call + 0.125 * n + 0.5, -4.0 - 0.03125 * (start + 25 * n) - 0.25, call * 10 + block) for n in range(4)]
+
+
+counter = Path('counter.txt')
+call = int(counter.read_text()) if counter.is_file() else 0
+counter.write_text(str(call + 1))
+sys.stdin.read()
+out = 'LAMMPS (2 Aug 2023 - Update 1)\n' + 'Reading data file ...\n\n'
+for block in range(1 + call % 2):
+    out += 'Per MPI rank memory allocation (min/avg/max) = 3.1 | 3.1 | 3.1 Mbytes\n'
+    out += '   Step          Temp          PotEng     v_tag \n'
+    for r in rows_for(call, block):
+        out += '%10d %14.8f %14.8f %6d \n' % r
+    out += 'Loop time of 0.0123 on 1 procs for 75 steps with 4 atoms\n\n' + 'Total # of neighbors = 0\n\n'
+out += 'Total wall time: 0:00:00\n'
+Path('log.lammps').write_text(out)
+sys.stdout.write(out)
+'''
+
+
+@group('run.restarts', kind='bounded', files=[RUNF, LOGF], functions=['lammps.run', 'Log.read'],
+       clause='lammps.run with a restart script, called again and again in one directory: the existing log is kept as the next numbered log and the returned Log holds one record per run '
+              'ever performed, in the order in which they were performed, with the printed values',
+       rule='a stand-in executable (a Python script passed through mpi_command; no LAMMPS in the sandbox) prints 1 or 2 thermo blocks of 4 rows with known values per call; 13 calls in a fresh '
+            'temporary directory (so 12 numbered logs, past the point where names stop sorting numerically); after every call all records are compared; distinct by call number; '
+            'non-trivial = calls after the first')
+def run_restarts(tier, seed):
+    from pyvc.native import atomman
+    import numpy as np
+    import hashlib
+    import shutil
+    import sys
+    import tempfile
+    am = atomman()
+
+    def rows_for(call, block):
+        start = 1000 * call + 100 * block
+        return [(start + 25 * n, 300.0 + call + 0.125 * n + 0.5, -4.0 - 0.03125 * (start + 25 * n) - 0.25, call * 10 + block) for n in range(4)]
+    fails = []
+    evals = 0
+    cwd = os.getcwd()
+    tmp = tempfile.mkdtemp(prefix='pyvc_c19_')
+    try:
+        os.chdir(tmp)
+        with open('fake_lammps.py', 'w') as f:
+            f.write(_FAKE_LAMMPS)
+        fake = os.path.join(tmp, 'fake_lammps.py')
+        for call in range(13):
+            evals += 1
+            try:
+                log = am.lammps.run(fake, script='run 75\n', restart_script='read_restart x\nrun 75\n', mpi_command=sys.executable, logfile='log.lammps')
+                expected = [rows_for(c, b) for c in range(call + 1) for b in range(1 + c % 2)]
+                msg = None
+                if len(log.simulations) != len(expected):
+                    msg = '%d simulation records, %d runs were performed' % (len(log.simulations), len(expected))
+                else:
+                    for k, (sim, exp) in enumerate(zip(log.simulations, expected)):
+                        got = sim.thermo.values.astype(float)
+                        exp = np.array(exp, dtype=float)
+                        if list(sim.thermo.columns) != ['Step', 'Temp', 'PotEng', 'v_tag'] or got.shape != exp.shape or not np.allclose(got, exp, rtol=0, atol=1e-9):
+                            msg = 'record %d does not hold run number %d: steps read %r, steps printed by that run %r' % (k, k, sim.thermo.Step.tolist() if 'Step' in sim.thermo else None, exp[:, 0].astype(int).tolist())
+                            break
+                    numbered = sorted(p for p in os.listdir('.') if p.startswith('log-'))
+                    if msg is None and len(numbered) != call:
+                        msg = '%d numbered logs kept after %d restarts: %r' % (len(numbered), call, numbered)
+            except Exception as e:
+                msg = 'raised %s: %s' % (type(e).__name__, e)
+            if msg:
+                fails.append({'obligation': 'run.restarts.post', 'key': 'call %d' % call, 'input': {'restarts_before': call}, 'detail': 'after restart number %d: %s' % (call, msg)})
+                break
+    finally:
+        os.chdir(cwd)
+        shutil.rmtree(tmp, ignore_errors=True)
+    files = {rel: hashlib.sha256(open(os.path.join(REPO, rel), 'rb').read()).hexdigest() for rel in (RUNF, LOGF)}
+    return {'family': 'lammps.run restarted 12 times with a stand-in executable', 'evaluations': evals, 'distinct_nontrivial': max(evals - 1, 0), 'rule': 'see group rule',
+            'samples': [{'calls': evals}], 'failures': fails, 'files': files}
